@@ -11,7 +11,7 @@ ASSUMPTIONS = [
 ]
 BOUNDS = {
     'quick': 'H14a: k = 1..3 sequential opens for ALL start values c in [0, 2^32) (the wrap is one symbolic branch); streams opened through streaming_shell/_open; sync+async. H14b: 2 concurrent opens, c in {0, 2^32-3, 2^32-2, 2^32-1, symbolic}, preemption bound 3',
-    'thorough': 'k = 1..4; H14b: 3 concurrent opens',
+    'thorough': 'k = 1..4; H14b: 3 concurrent opens (statement-level preemption bound 1; asyncio all orders)',
 }
 U32 = 2 ** 32 - 1
 
@@ -121,6 +121,7 @@ def shapes(tier, seed):
         out.append({'h': 'threads', 'ops': [['open', {'silent': True}], 'open'], 'preempt': 2, 'yields': False, 'counter': c, 'after_opens': 2, 'max_paths': 200000})
         out.append({'h': 'async', 'ops': [['open', {'silent': True}], 'open'], 'counter': c, 'after_opens': 2, 'max_paths': 200000})
     if not q:
-        out.append({'h': 'threads', 'ops': ['open', 'open', 'open'], 'preempt': 2, 'yields': True, 'counter': 2 ** 32 - 2, 'max_paths': 2000000})
+        for c in (0, 2 ** 32 - 3, 2 ** 32 - 2):
+            out.append({'h': 'threads', 'ops': ['open', 'open', 'open'], 'preempt': 1, 'yields': True, 'counter': c, 'max_paths': 400000})
         out.append({'h': 'async', 'ops': ['open', 'open', 'open'], 'counter': 2 ** 32 - 2, 'max_paths': 2000000})
     return out
